@@ -135,7 +135,7 @@ def fn(case):
             os.makedirs(target)
             with open(os.path.join(target, "STALE.txt"), "w") as f:
                 f.write("old")
-            if "/" not in scripts[0]:
+            if scripts and "/" not in scripts[0]:
                 with open(os.path.join(target, scripts[0]), "w") as f:
                     f.write("old version of a listed file")
         elif stale == "dir":
@@ -232,7 +232,7 @@ def fn(case):
 def plan(tier):
     singles = [[f] for f in FILES]
     pairs = [[FILES[i], FILES[i + 1]] for i in range(len(FILES) - 1)] + [[FILES[-1], FILES[0]]]
-    scripts = Const(singles + pairs)
+    scripts = Const(singles + pairs + [[]])
     styles = Const([None, STYLE])
     full = Prod(scripts, styles, Const([False, True]), Const(["dir", "package", "url/", "url", "none"]),
                 Const(["lib", None, "x/y"]), Const([True, False]), Const(["absent", "file", "dir"]),
